@@ -33,7 +33,9 @@ def sizeS : List T → Nat
 
 /-! ### `visit` -/
 
-/-- the `while stack:` loop of `visit`; the stack is written top first; yields object ids -/
+/-- the `while stack:` loop of `visit`; the stack is written top first; yields object ids.
+    Leaves are dropped; an object or a container (list, tuple, dict) whose identity was met before
+    is not expanded again; only objects are yielded. -/
 def visitLoop : Nat → List T → List Nat → List Nat
   | 0, _, _ => []
   | _ + 1, [], _ => []
@@ -43,13 +45,15 @@ def visitLoop : Nat → List T → List Nat → List Nat
     | .obj =>
       if id ∈ visited then visitLoop f rest visited
       else id :: visitLoop f (cs.map (·.2) ++ rest) (id :: visited)
-    | _ => visitLoop f (cs.map (·.2) ++ rest) visited      -- list, tuple, dict (values)
+    | _ =>                                               -- list, tuple, dict (values)
+      if id ∈ visited then visitLoop f rest visited
+      else visitLoop f (cs.map (·.2) ++ rest) (id :: visited)
 
 def visit (t : T) : List Nat := visitLoop (t.size + 1) [t] []
 
 mutual
-/-- SPEC: recursive depth-first pre-order of the parsed objects, first occurrence only.
-    Returns the ids yielded and the visited set afterwards. -/
+/-- SPEC: recursive depth-first pre-order of the parsed objects; an object or a container is
+    expanded only the first time it is met.  Returns the ids yielded and the visited set afterwards. -/
 def dfs : T → List Nat → List Nat × List Nat
   | .mk k id cs, visited =>
     match k with
@@ -59,7 +63,9 @@ def dfs : T → List Nat → List Nat × List Nat
       else
         let r := dfsL cs (id :: visited)
         (id :: r.1, r.2)
-    | _ => dfsL cs visited
+    | _ =>
+      if id ∈ visited then ([], visited)
+      else dfsL cs (id :: visited)
 def dfsL : List (Nat × T) → List Nat → List Nat × List Nat
   | [], visited => ([], visited)
   | c :: cs, visited =>
